@@ -150,14 +150,29 @@ Proof.
   - rewrite getv_rsub_nn. lia.
 Qed.
 
-Lemma bounds_update i s : wfi i -> ledger_bounds i -> ledger_bounds (update_info i s).
+(* the recomputed ledger *)
+Lemma getv_fold_alloc nm k : forall (l : list preq) acc,
+  getv k (fold_left (fun a (q : preq) => radd a (rmask (snd q) nm)) l acc)
+  = getv k acc + held_of nm l k.
 Proof.
-  intros [Hnd Hnn] H k. rewrite held_unfold. unfold update_info.
-  cbn [r_allocated r_names r_assigned]. rewrite getv_rmask, held_of_alt.
-  specialize (H k). rewrite held_unfold, held_of_alt in H.
-  pose proof (raw_nonneg (r_assigned i) k Hnn) as Hraw.
-  destruct (memZ k (names_of s)); [|lia].
-  destruct (memZ k (r_names i)); lia.
+  induction l as [|q t IH]; intros acc; cbn [fold_left].
+  - unfold held_of. cbn. lia.
+  - rewrite IH, getv_radd. unfold held_of. cbn [map sumZ]. lia.
+Qed.
+
+Lemma getv_alloc_by_assigned nm l k : getv k (alloc_by_assigned nm l) = held_of nm l k.
+Proof. unfold alloc_by_assigned. rewrite getv_fold_alloc. cbn. lia. Qed.
+
+Lemma exact_update i s : ledger_exact (update_info i s).
+Proof.
+  intros k. rewrite held_unfold. unfold update_info, update_info_gen.
+  cbn [r_allocated r_names r_assigned]. apply getv_alloc_by_assigned.
+Qed.
+
+Lemma bounds_update i s : wfi i -> ledger_bounds (update_info i s).
+Proof.
+  intros [Hnd Hnn] k. rewrite (exact_update i s k). split; [|lia].
+  rewrite held_unfold. apply held_of_nonneg. exact Hnn.
 Qed.
 
 (* ---------- exactness: allocated = held, as long as no update grows the dimensions ---------- *)
@@ -185,19 +200,6 @@ Proof.
   destruct (is_nil (snd q)) eqn:En.
   - apply is_nil_true in En. rewrite En in H. cbn [rmask filter getv] in H. lia.
   - rewrite getv_rsub_nn. lia.
-Qed.
-
-Lemma exact_update i s :
-  grow_safe i (names_of s) = true -> ledger_exact i -> ledger_exact (update_info i s).
-Proof.
-  intros Hg H k. rewrite held_unfold. unfold update_info.
-  cbn [r_allocated r_names r_assigned]. rewrite getv_rmask, held_of_alt.
-  specialize (H k). rewrite held_unfold, held_of_alt in H.
-  destruct (memZ k (names_of s)) eqn:Ek; [|reflexivity].
-  unfold grow_safe in Hg. rewrite forallb_forall in Hg.
-  apply memZ_In in Ek. specialize (Hg k Ek).
-  destruct (memZ k (r_names i)); [exact H|].
-  cbn [orb] in Hg. apply Z.eqb_eq in Hg. lia.
 Qed.
 
 (* ---------- lifting a per-reservation invariant to every cache operation ---------- *)
@@ -276,24 +278,21 @@ Proof.
   cbn [crun fold_left]. apply IH; [exact Ht|].
   apply (lift_cstep bounds_inv (fun _ _ => True)); auto.
   - intros s. split; [apply wfi_new|apply bounds_new].
-  - intros c0 b own s i _ _ [Hw Hb]. split; [apply wfi_update, Hw|apply bounds_update; assumption].
+  - intros c0 b own s i _ _ [Hw Hb]. split; [apply wfi_update, Hw|apply bounds_update, Hw].
   - intros i u req Hreq [Hw Hb]. split; [apply wfi_add; assumption|apply bounds_add; assumption].
   - intros i u [Hw Hb]. split; [apply wfi_remove, Hw|apply bounds_remove; assumption].
 Qed.
 
 Lemma exact_run : forall l c,
   all_along (fun _ o => op_nonneg o) c l = true ->
-  all_along no_grow_op c l = true ->
   all_infos exact_inv c -> all_infos exact_inv (crun c l).
 Proof.
-  induction l as [|o t IH]; intros c Hnn Hg Hc; [exact Hc|].
-  cbn [all_along] in Hnn, Hg. apply andb_true_iff in Hnn. destruct Hnn as [Ho Ht].
-  apply andb_true_iff in Hg. destruct Hg as [Hgo Hgt].
-  cbn [crun fold_left]. apply IH; [exact Ht|exact Hgt|].
-  apply (lift_cstep exact_inv (fun c o => no_grow_op c o = true)); auto.
+  induction l as [|o t IH]; intros c Hnn Hc; [exact Hc|].
+  cbn [all_along] in Hnn. apply andb_true_iff in Hnn. destruct Hnn as [Ho Ht].
+  cbn [crun fold_left]. apply IH; [exact Ht|].
+  apply (lift_cstep exact_inv (fun _ _ => True)); auto.
   - intros s. split; [apply wfi_new|apply exact_new].
-  - intros c0 b own s i Hok Hf [Hw He]. split; [apply wfi_update, Hw|].
-    apply exact_update; [|exact He]. cbn [no_grow_op] in Hok. rewrite Hf in Hok. exact Hok.
+  - intros c0 b own s i _ _ [Hw He]. split; [apply wfi_update, Hw|apply exact_update].
   - intros i u req Hreq [Hw He]. split; [apply wfi_add; assumption|apply exact_add, He].
   - intros i u [Hw He]. split; [apply wfi_remove, Hw|apply exact_remove; assumption].
 Qed.
@@ -305,25 +304,21 @@ Proof.
   intros Hnn i Hi. apply (bounds_run l init_cache Hnn (all_infos_init _) i Hi).
 Qed.
 
-Lemma ledger_exact_no_growth l :
+Lemma ledger_exact_all_histories l :
   all_along (fun _ o => op_nonneg o) init_cache l = true ->
-  all_along no_grow_op init_cache l = true ->
   forall i, In i (infos (crun init_cache l)) -> ledger_exact i.
 Proof.
-  intros Hnn Hg i Hi. apply (exact_run l init_cache Hnn Hg (all_infos_init _) i Hi).
+  intros Hnn i Hi. apply (exact_run l init_cache Hnn (all_infos_init _) i Hi).
 Qed.
 
-(* the unconditional sentence is false of the code: witness of finding 1 *)
-Definition witness_grow : list cop :=
-  [ CUpdate false 0 (mkSpec 1 1 1 false false 2 0 [] [(1, 8)] [] false 0);
-    CAddPod 1 1 [(4, 7)];
-    CUpdate false 0 (mkSpec 1 1 1 false false 2 0 [] [(1, 8); (4, 8)] [] false 0) ].
+(* regression: the behaviour before fix 75e0c17 (old = true) loses what the assigned pod holds in
+   the dimension the update adds; the repaired one does not *)
+Definition grow_info : rinfo :=
+  add_assigned (new_info (mkSpec 1 1 1 false false 2 0 [] [(1, 8)] [] false 0)) 1 [(4, 7)].
+Definition grow_spec : rspec := mkSpec 1 1 1 false false 2 0 [] [(1, 8); (4, 8)] [] false 0.
 
-Lemma ledger_exact_refuted :
-  all_along (fun _ o => op_nonneg o) init_cache witness_grow = true
-  /\ exists i, In i (infos (crun init_cache witness_grow))
-               /\ getv 4 (r_allocated i) = 0 /\ held i 4 = 7.
-Proof.
-  split; [vm_compute; reflexivity|].
-  eexists. split; [vm_compute; left; reflexivity|]. split; vm_compute; reflexivity.
-Qed.
+Lemma old_update_loses_held :
+  getv 4 (r_allocated (update_info_gen true grow_info grow_spec)) = 0
+  /\ held (update_info_gen true grow_info grow_spec) 4 = 7
+  /\ getv 4 (r_allocated (update_info_gen false grow_info grow_spec)) = 7.
+Proof. repeat split; vm_compute; reflexivity. Qed.
